@@ -22,10 +22,10 @@ import (
 	_ "go.opentelemetry.io/otel/log/noop"
 	_ "go.opentelemetry.io/otel/metric"
 	_ "go.opentelemetry.io/otel/sdk/log"
-	_ "go.opentelemetry.io/otel/trace"
 	_ "go.opentelemetry.io/otel/sdk/log/logtest"
 	_ "go.opentelemetry.io/otel/sdk/metric"
 	_ "go.opentelemetry.io/otel/sdk/trace/tracetest"
+	_ "go.opentelemetry.io/otel/trace"
 	_ "go.opentelemetry.io/proto/otlp/collector/logs/v1"
 	_ "go.opentelemetry.io/proto/otlp/collector/metrics/v1"
 	_ "go.opentelemetry.io/proto/otlp/collector/trace/v1"
